@@ -237,24 +237,29 @@ def sectionBounds : List (List String) :=
 
 theorem sectionBounds_nodup : sectionBounds.flatten.Nodup := by decide +kernel
 
+/-- every section's keys are distinct and lie in that section's own name list -/
+theorem sections_bounded (m : SensorMsg) :
+    ∀ p ∈ ((sections m).map keysOf).zip sectionBounds, p.1.Nodup ∧ ∀ x ∈ p.1, x ∈ p.2 := by
+  have ht := keys_tempFields temperatureNamesSpec (m.temps.map fun it => (it.1.toNat, it.2))
+  simp only [sections, sectionBounds, List.map_cons, List.map_nil, List.zip_cons_cons, List.zip_nil_right,
+    List.forall_mem_cons]
+  refine ⟨?_, ?_, ?_, ?_, ?_, ?_, ?_, ?_, ?_, ?_, ?_, ?_, ?_, ?_, ?_, ?_, ?_, ?_, ?_⟩
+  all_goals first
+    | (simp [keysOf, valVersions, valOutputs, valOutputFlags, valModules, valMixers, outputNamesSpec, List.zipIdx]; done)
+    | exact ht
+    | (simp only [optF32]; split <;> simp [keysOf]; done)
+    | (split <;> simp [keysOf]; done)
+    | (cases m.fuelLevel <;> simp [keysOf, valFuelLevel]; done)
+    | (cases m.lambda <;> simp [keysOf, valLambda]; done)
+    | (cases m.thermostats <;> simp [keysOf, valThermostats]; done)
+
 theorem sections_keys_nodup (m : SensorMsg) : ((sections m).flatten.map Prod.fst).Nodup := by
   have hfl : (sections m).flatten.map Prod.fst = (((sections m).map keysOf).zip sectionBounds |>.map Prod.fst).flatten := by
     rw [List.map_fst_zip (by simp [sections, sectionBounds])]
     rw [List.map_flatten]; rfl
   rw [hfl]
   apply nodup_flatten_of_bounds
-  · have ht := keys_tempFields temperatureNamesSpec (m.temps.map fun it => (it.1.toNat, it.2))
-    simp only [sections, sectionBounds, List.map_cons, List.map_nil, List.zip_cons_cons, List.zip_nil_right,
-      List.forall_mem_cons]
-    refine ⟨?_, ?_, ?_, ?_, ?_, ?_, ?_, ?_, ?_, ?_, ?_, ?_, ?_, ?_, ?_, ?_, ?_, ?_, ?_⟩
-    all_goals first
-      | (simp [keysOf, valVersions, valOutputs, valOutputFlags, valModules, valMixers, outputNamesSpec, List.zipIdx]; done)
-      | exact ht
-      | (simp only [optF32]; split <;> simp [keysOf]; done)
-      | (split <;> simp [keysOf]; done)
-      | (cases m.fuelLevel <;> simp [keysOf, valFuelLevel]; done)
-      | (cases m.lambda <;> simp [keysOf, valLambda]; done)
-      | (cases m.thermostats <;> simp [keysOf, valThermostats]; done)
+  · exact sections_bounded m
   · rw [List.map_snd_zip (by simp [sections, sectionBounds])]
     exact sectionBounds_nodup
 
